@@ -12,7 +12,7 @@ tgt = os.path.join(ROOT, ".build", "kani")
 env = dict(os.environ, CARGO_NET_OFFLINE="true")
 env.pop("RUSTFLAGS", None)
 env.pop("CARGO_TARGET_DIR", None)
-shutil.copy("/repo/Cargo.lock", os.path.join(HERE, "Cargo.lock"))
+shutil.copy(os.path.join(os.environ.get("PVERIF_REPO", "/repo"), "Cargo.lock"), os.path.join(HERE, "Cargo.lock"))
 subprocess.run([sys.executable, os.path.join(HERE, "gen.py")], check=True, stdout=subprocess.DEVNULL)
 H = json.load(open(os.path.join(HERE, "harnesses.json")))
 sel = [h for h in H if tier == "thorough" or h["tier"] == "quick"]
